@@ -2,6 +2,7 @@
    extracted datatype, no Extract Constant. *)
 From Coq Require Import NArith ZArith List.
 From Coq Require Import ExtrOcamlBasic.
-From VV Require Import Rng.RngDefs.
+From VV Require Import Base.F64 Rng.RngDefs Rng.DistDefs.
 Extraction "rng_model.ml" new_engine seed_engine random_seed next outputs advance state_eqb
-  show_u read_u save_state load_state load_state_benign load_state_literal state_list reload_outputs Z.of_N Z.to_N.
+  show_u read_u save_state load_state load_state_benign load_state_literal state_list reload_outputs Z.of_N Z.to_N
+  between_int between_real boolean canonical answers F64.of_bits F64.to_bits F64.is_nan.
